@@ -21,14 +21,14 @@ TIERS = {
         side=2000),
     "thorough": dict(
         lasso=[dict(RNG=4, LMAX=4, ALPHA4=Q(0, "1/2", 1, "3/2", 2, 3, 5, 7))],
-        hier=[dict(RNG=3, LMAX=3, VSET="large", ALPHA4=Q(0, "1/4", "1/2", 1, 2, 3, 5), M4=Q(0, "1/4", "1/2", 1, 2, 3, 10),
+        hier=[dict(RNG=3, LMAX=3, VSET="large", ALPHA4=Q(0, "1/4", "1/2", 1, 2, 5), M4=Q(0, "1/4", "1/2", 1, 2, 3, 10),
                    NBMAX=5),
               dict(RNG=2, LMAX=4, VSET="small", ALPHA4=Q(0, "1/2", 1, 2, 5), M4=Q(0, "1/2", 1, 2, 10), NBMAX=5)],
         glasso=[dict(D=d, H=h, NSEED=40, ALPHA4=Q(0, "1/4", "1/2", 1, 2, 3, 5, 7))
                 for d, h in ((1, 1), (1, 3), (2, 1), (2, 2), (3, 1), (3, 2), (4, 1), (4, 2), (4, 3))],
         ghier=[dict(D=d, KO=k, H=h, NSEED=3, SUB=s, ALPHA4=Q(0, "1/2", 1, 2, 5), M4=Q(0, "1/2", 1, 2, 10))
-               for d, k, h, s in ((1, 2, 2, 1), (1, 3, 1, 1), (2, 2, 1, 2), (2, 2, 2, 4), (3, 1, 2, 1), (3, 2, 1, 16),
-                                  (4, 1, 1, 4), (4, 1, 2, 8), (4, 2, 2, 8))],
+               for d, k, h, s in ((1, 2, 2, 1), (1, 3, 1, 1), (2, 2, 1, 8), (2, 2, 2, 8), (3, 1, 2, 8), (3, 2, 1, 128),
+                                  (4, 1, 1, 64), (4, 1, 2, 128), (4, 2, 2, 128))],
         side=20000),
 }
 MAX_REPORTED = 40       # replay files written per run (all disagreements are counted)
@@ -293,25 +293,31 @@ def run(tier):
                 "by that key: single-row cases are replayed stacked (whole bucket of equal shape/alpha/M) and in seeded "
                 "mini-batches of 1-4 rows; group cases through three spellings of the group list")
     counts = {}
-    # the TLC runs are independent: start them all (largest first, 3 JVMs at a time), consume results in a fixed order
+    # the TLC runs are independent: start them all (largest first, 3 JVMs at a time) and replay each into the code as
+    # soon as it is available, in a fixed order that leaves the largest run for last (replay overlaps with TLC)
     jobs = [(mode, consts) for mode in ("hier", "ghier", "lasso", "glasso") for consts in plan[mode]]
-    with ThreadPoolExecutor(max_workers=3) as pool:
-        futs = [pool.submit(prox.enumerate_cases, mode, timeout=2400 if tier == "thorough" else 600, **consts)
-                for mode, consts in jobs]
-        results = [f.result() for f in futs]          # a MachineryError of any run propagates (exit 2)
-    for (mode, consts), r in zip(jobs, results):
-        if True:    # (kept as a block: one TLC run -> evidence -> replay into the code)
-            note = mode + " " + " ".join(f"{k}={sorted(v) if isinstance(v, set) else v}" for k, v in consts.items())
-            rep.add_tlc("Prox", r, note=note + "; invariants " + ",".join(prox.INVARIANTS))
-            counts[mode] = counts.get(mode, 0) + len(r.prints)
-            if mode == "hier":
-                counts["hier_neighbour_theorem_cases"] = counts.get("hier_neighbour_theorem_cases", 0) + \
-                    sum(1 for p in r.prints if p["nbr"])
-                counts["hier_zero_beta"] = counts.get("hier_zero_beta", 0) + sum(1 for p in r.prints if p["b"][0] == 0)
-            CHECKERS[mode](ctx, r.prints)
-            if r.prints:
-                c = r.prints[(len(r.prints) * 2) // 3]
-                rep.sample({k: c[k] for k in c if k not in ("Z", "z")} if mode in ("lasso", "glasso") else c)
+    pool = ThreadPoolExecutor(max_workers=3)
+    futs = [pool.submit(prox.enumerate_cases, mode, timeout=2400 if tier == "thorough" else 600, **consts)
+            for mode, consts in jobs]
+    pool.shutdown(wait=False)
+    order = sorted(range(len(jobs)), key=lambda i: ("lasso", "glasso", "ghier", "hier").index(jobs[i][0]))
+    for i in order:
+        (mode, consts), r = jobs[i], futs[i].result()       # a MachineryError of any run propagates (exit 2)
+        note = mode + " " + " ".join(f"{k}={sorted(v) if isinstance(v, set) else v}" for k, v in consts.items())
+        rep.add_tlc("Prox", r, note=note + "; invariants " + ",".join(prox.INVARIANTS))
+        counts[mode] = counts.get(mode, 0) + len(r.prints)
+        if mode == "hier":
+            counts["hier_neighbour_theorem_cases"] = counts.get("hier_neighbour_theorem_cases", 0) + \
+                sum(1 for p in r.prints if p["nbr"])
+            counts["hier_zero_beta"] = counts.get("hier_zero_beta", 0) + sum(1 for p in r.prints if p["b"][0] == 0)
+        CHECKERS[mode](ctx, r.prints)
+        if r.prints and consts is plan[mode][-1]:          # one literal case per mode, from its largest run
+            c = dict(r.prints[(len(r.prints) * 2) // 3])
+            if mode == "lasso":
+                c["z"] = lasso_expect(c)[0]
+            elif mode == "glasso":
+                c["Z"] = [[prox.bag_value(b)[0] for b in row] for row in c["Z"]]
+            rep.sample(c)
     counts["numeric_side_check_rows"] = side_check(ctx, plan["side"])
     rep.extra["emitted_cases"] = counts
     rep.exhaustive = False
